@@ -154,3 +154,15 @@ claim("C11",
       "documents, generated DFXP/SAMI documents and generated SCC programs.",
       "flat balanced spans without layouts on the input side; DFXP judged for italics only",
       "DESIGN.md 3/C11")
+claim("C09",
+      "Hypothesis RuleBasedStateMachine over histories of writes (bundle of caption sets, pool "
+      "of fresh / reused writer objects, 8 writers, options); invariant: deep structural dump "
+      "of the input unchanged; differential: same outcome as first write in the history and as "
+      "pristine forked children under several PYTHONHASHSEED values",
+      "Generated-history search: 400 (thorough 10k) histories of up to 20 (40) steps; every "
+      "write is bracketed by a structural snapshot of the whole caption set (also when the "
+      "writer raises), every outcome (bytes or exception type) is compared with the first "
+      "outcome of the same (set, writer, options) in the history and with a process that has "
+      "done nothing else, for hash seeds {0,1} (thorough {0,1,2,3}).",
+      "TranscriptWriter not exercised (nltk absent); an exception type counts as the outcome",
+      "DESIGN.md 3/C09")
